@@ -186,6 +186,24 @@ def run(pid, tier):
         raise HarnessError(harness[0])
     violations = [v for r in results for v in r["violations"]]
     interesting = sum(1 for r in results if r["interesting"])
+    # "The environment built from it therefore enforces every rule written in the file": the complete state graph
+    # of every YAML-loaded family scenario that carries host firewalls or restrictive subnet rules, with the
+    # firewall/pivot oracle (C02: success only if permitted) and the applicability oracle (C01: permitted and
+    # applicable => succeeds) armed - here against the independent reading of the FILE.
+    from .sweep import run_family
+    ruled = [(sp, b) for sp, b in family(tier) if b in ("yaml", "shipped") and "subnets" in sp and (
+        any(h.get("firewall") for h in sp["hosts"].values())
+        or any(sorted(v) != sorted(sp["services"]) for k, v in sp["firewall"].items() if k[1] != 0))]
+    agg, dyn_viol, errors = run_family(["C01", "C02"], tier, {}, entries=ruled)
+    if errors:
+        raise HarnessError("; ".join(errors[:3]))
+    for v in dyn_viol:
+        v = dict(v)
+        v["enforced_property"] = v["property"]
+        v["property"] = "C17"
+        v["kind"] = "environment_does_not_enforce_the_file:" + str(v["kind"])
+        v["engine"] = "sweep_on_yaml_binding"
+        violations.append(v)
     samples = [{"document": d[0], "style": d[2], "first_lines": d[1].splitlines()[:6]} for d in rotate(docs, 3)]
     cov = {
         "states": len(docs), "transitions": len(docs),
@@ -193,6 +211,8 @@ def run(pid, tier):
         "evaluations": len(docs), "distinct_nontrivial": interesting,
         "rule": RULE, "samples": samples, "exhaustive": True,
         "documents": len(docs), "shipped_files": len(SHIPPED_ALL),
+        "yaml_scenarios_explored_for_rule_enforcement": agg["scenarios"],
+        "enforcement_transitions": agg["transitions"],
         "format_styles": len(styles(tier)),
         "bound": "family documents x format styles (" + ("full product (384 styles)" if tier == "thorough" else "full product (384 styles) on eight 2-subnet scenarios, pairwise otherwise") + ") + 9 shipped files",
         "note": "states/transitions = documents loaded / load-and-compare operations",
@@ -203,5 +223,9 @@ def run(pid, tier):
 
 
 def replay(pid, rec):
+    if rec.get("engine") == "sweep_on_yaml_binding":
+        from .sweep import replay_sweep_record
+        r2 = dict(rec); r2["property"] = rec["enforced_property"]; r2["kind"] = rec["kind"].split(":", 1)[1]
+        return replay_sweep_record(r2)
     r = _check_text((rec.get("scenario_name", "replay"), rec["document"], rec.get("style")))
     return r["violations"]
